@@ -8,9 +8,7 @@ CONSTANTS
   Toggles <- M3Globals
   Reads <- M3Reads
   OwnKey <- ManifestOwnKey
-  MaxLen = 5
-  ProbeInput = "-"
-  ProbeKind = "-"
+  MaxLen = 3
 INVARIANTS
   Fresh
 CHECK_DEADLOCK FALSE
